@@ -400,12 +400,19 @@ def wall_now(M):
     prev = M.env.get('wall_prev')
     fixed = M.env.get('wall_fixed')
     if fixed is not None: return fixed
+    rp = M.env.get('wall_replay')
+    if rp is not None:
+        i = M.env.get('wall_replay_pos', 0)
+        if i < len(rp):
+            M.env['wall_replay_pos'] = i + 1
+            return rp[i]
     t = M.fresh_bv('now', 64)
     if prev is not None: M.assume(z3.UGE(t, prev))
     lo = M.env.get('wall_min')
     if lo is not None and prev is None: M.assume(z3.UGE(t, lo))
     M.assume(z3.ULT(t, z3.BitVecVal(1 << 62, 64)))
     M.env['wall_prev'] = t
+    M.env.setdefault('wall_log', []).append(t)
     return t
 
 @model('std::time::SystemTime::now')
